@@ -289,6 +289,7 @@ type e2eWire struct {
 	msgs    []*e2eMsg
 	faults  []*e2eFault
 	actProt int // >=0: rewrite ACT protocol to this value (0 = remove the field)
+	actNoDir bool // rewrite ACT: support_dir = false
 	// mutate: replace the payload (text between "#TYPE:" and the line terminator) of the message
 	// with global index mutG by mutNew, when the whole line lies inside one write
 	mutG       int
@@ -351,7 +352,7 @@ func (p *e2ePipe) Write(b []byte) (int, error) {
 	if p.dir == "c2s" && w.actProt >= 0 {
 		for _, m := range done {
 			if m.Typ == "ACT" {
-				out = e2eRewriteACT(out, w.actProt, w.winNL)
+				out = e2eRewriteACT(out, w.actProt, w.winNL, w.actNoDir)
 			}
 		}
 	}
@@ -492,7 +493,7 @@ func (w *e2eWire) applyFaults(dir string, base int, out []byte) []byte {
 	return out
 }
 
-func e2eRewriteACT(out []byte, prot int, win bool) []byte {
+func e2eRewriteACT(out []byte, prot int, win bool, noDir bool) []byte {
 	i := bytes.Index(out, []byte("#ACT:"))
 	if i < 0 {
 		return out
@@ -518,6 +519,9 @@ func e2eRewriteACT(out []byte, prot int, win bool) []byte {
 		delete(m, "protocol")
 	} else {
 		m["protocol"] = prot
+	}
+	if noDir {
+		m["support_dir"] = false
 	}
 	enc, _ := json.Marshal(m)
 	var nb bytes.Buffer
